@@ -418,9 +418,9 @@ func DiffObs(a, b *Obs, opt DiffOpts) []Delta {
 			continue
 		}
 		if lb == nil {
-			out = append(out, Delta{Path: p, A: la.Val, What: "leaf", Feature: leafFeat(la)})
+			out = append(out, Delta{Path: p, A: la.Val, What: "leaf", Feature: LeafFeat(la)})
 		} else if la.Val != lb.Val {
-			out = append(out, Delta{Path: p, A: la.Val, B: lb.Val, What: "leaf", Feature: leafFeat(la)})
+			out = append(out, Delta{Path: p, A: la.Val, B: lb.Val, What: "leaf", Feature: LeafFeat(la)})
 		}
 	}
 	for p, lb := range b.Leaves {
@@ -430,7 +430,7 @@ func DiffObs(a, b *Obs, opt DiffOpts) []Delta {
 		if opt.EmptyLeafListIsAbsent && isEmptyLL(lb) {
 			continue
 		}
-		out = append(out, Delta{Path: p, B: lb.Val, What: "leaf", Feature: leafFeat(lb)})
+		out = append(out, Delta{Path: p, B: lb.Val, What: "leaf", Feature: LeafFeat(lb)})
 	}
 	boolDiff := func(ma, mb map[string]bool, what string) {
 		for p := range ma {
@@ -513,7 +513,7 @@ func KeyClass(elems []PathElem) string {
 	return "@keys(" + strings.Join(ks, ",") + ")"
 }
 
-func leafFeat(l *Leaf) string {
+func LeafFeat(l *Leaf) string {
 	f := l.Feature() + KeyClass(l.Elems)
 	if isEmptyLL(l) {
 		f += ":empty"
